@@ -50,7 +50,7 @@ Hint == hint' = [t |-> (IF Relax = "timer" THEN -1 ELSE Tr[l].post.timer),
 Report(c) == (c \in {"devNoSeq", "devAgg"}) => PrintT(<<"DEVUSED", tid, l, c>>)
 
 TRecv == /\ Ev("RecvSV") /\ Hint
-         /\ \E c \in {"norm", "reject", "devNoSeq"} : RecvSV(Tr[l].p, 0, c) /\ PostOk /\ Report(c)
+         /\ \E c \in {"norm", "reject", "devNoSeq"} : RecvSV(Tr[l].p, 0, c, Tr[l].r) /\ PostOk /\ Report(c)
 TFire == /\ Ev("TimerFire") /\ Hint
          /\ \E c \in {"norm", "skip", "devAgg"} : TimerFire(0, c) /\ PostOk /\ Report(c)
 TPub == /\ Ev("Publish") /\ Hint
